@@ -563,7 +563,13 @@ pub fn run_scenario_stop(cfg: &NetCfg, scripts: &Value, seed: u64, stop: &str) -
             }
         };
         if stop == "never" {
-            let rt = Builder::seeded(seed).quiet().max_time(limit).build(sim.freeze());
+            let mut rt = Builder::seeded(seed).quiet().max_time(limit).build(sim.freeze());
+            // pending events at the far end of time (SimTime::MAX is the timestamp of the calendar queue's own sentinels)
+            // are released with the runtime like any other
+            for i in 0..2 {
+                let msg = Message::default().id(9100 + i).with_content(Payload { bytes: 1, _life: Life::new(2) });
+                rt.handle_message_on(ma.clone(), msg, if i == 0 { SimTime::MAX } else { SimTime::from_duration(Duration::from_secs(1 << 40)) });
+            }
             drop(rt);
             return None;
         }
